@@ -104,6 +104,13 @@ class StochModel(Model):
             self.environment.add_agent(a, r.randint(0, 24) / 4.0, r.randint(0, 16) / 4.0)
 
 
+class StochKw(StochModel):
+    """The same model written the way many user models are: it forwards what it does not know to its base class."""
+
+    def __init__(self, **kwargs):
+        super().__init__(**kwargs)
+
+
 def perturb(v, salt):
     if v == 0:
         random.seed(salt * 7 + 1)
@@ -122,7 +129,7 @@ def perturb(v, salt):
 
 def _key(prog):
     c = prog["config"]
-    return "%s/%d/%s/seed=%d" % (c["kind"], c["n"], c["mix"], prog["seed"])
+    return "%s/%d/%s/seed=%r" % (c["kind"], c["n"], c["mix"], prog["seed"])
 
 
 def run_inline(prog):
@@ -141,7 +148,7 @@ def run_inline(prog):
             perturb(step[1], salt)
         elif step[0] == "B":
             if other is None:
-                other = StochModel(prog["seed"] + 1000 + salt, c["kind"], c["n"] + 1, c["mix"])
+                other = StochModel(100003 + salt, c["kind"], c["n"] + 1, c["mix"])
             other.execute()
     events = []
     for k in sorted(copies):
@@ -169,8 +176,8 @@ def run_worker(prog):
     from ECAgent.Batching import batch_run
     c = prog["config"]
     steps = sum(1 for s in prog["schedule"] if s[0] == "A" and s[1] == 1)
-    perturb(prog["seed"] % 3, prog["seed"])
-    res = batch_run(StochModel, {"seed": prog["seed"], "kind": c["kind"], "n": c["n"], "mix": c["mix"]}, collectors="traj",
+    perturb(len(str(prog["seed"])) % 3, steps)
+    res = batch_run(StochKw if steps % 2 else StochModel, {"seed": prog["seed"], "kind": c["kind"], "n": c["n"], "mix": c["mix"]}, collectors="traj",
                     processes=2, max_timesteps=max(steps, 1), repetitions=2)
     return [{"op": "run", "key": _key(prog), "copy": k + 1, "where": "worker", "out": "ok", "steps": r} for k, r in enumerate(res)]
 
